@@ -80,13 +80,19 @@ class PDict(object):
 
 
 class PMap(object):
-    """Mutable dict str -> int with symbolic contents: domain, values, size (z3 arrays / Int)."""
+    """Mutable dict str -> int (or str -> str, `vkind` 'str') with symbolic contents: domain, values, size (z3 arrays / Int)."""
 
-    def __init__(self, dom, val, size):
-        self.dom, self.val, self.size = dom, val, size
+    def __init__(self, dom, val, size, vkind='int'):
+        self.dom, self.val, self.size, self.vkind = dom, val, size, vkind
 
     def copy(self):
-        return PMap(self.dom, self.val, self.size)
+        return PMap(self.dom, self.val, self.size, self.vkind)
+
+    def wrap(self, term):
+        return SStr(term) if self.vkind == 'str' else SInt(term)
+
+    def unwrap(self, v):
+        return term_of(v) if self.vkind == 'str' else Int.unwrap(v)
 
 
 class PSet(object):
@@ -337,6 +343,18 @@ class MapStrInt(T):
 
     def __repr__(self):
         return 'MapStrInt'
+
+
+class MapStrStr(T):
+    """field/parameter type: a dict str -> str with arbitrary (symbolic) contents"""
+
+    def fresh(self, name):
+        S, I, B = z3.StringSort(), z3.IntSort(), z3.BoolSort()
+        return PMap(z3.FreshConst(z3.ArraySort(S, B), name + '_dom'), z3.FreshConst(z3.ArraySort(S, S), name + '_val'),
+                    z3.FreshConst(I, name + '_size'), vkind='str')
+
+    def __repr__(self):
+        return 'MapStrStr'
 
 
 class DictWith(T):
@@ -2110,7 +2128,7 @@ class Engine(object):
             k = term_of(idx)
             if not getattr(self, 'in_spec', False):
                 self.oblige('%s.key@%s' % (self.c.funcname, self.rel(node)), z3.Select(obj.dom, k), 'safety')
-            return SInt(z3.Select(obj.val, k))
+            return obj.wrap(z3.Select(obj.val, k))
         if isinstance(obj, PDict):
             obj = obj.val
         if isinstance(obj, dict):
@@ -2211,7 +2229,7 @@ class Engine(object):
             k = term_of(idx)
             obj.size = z3.If(z3.Select(obj.dom, k), obj.size, obj.size + 1)
             obj.dom = z3.Store(obj.dom, k, z3.BoolVal(True))
-            obj.val = z3.Store(obj.val, k, Int.unwrap(v))
+            obj.val = z3.Store(obj.val, k, obj.unwrap(v))
             return
         if isinstance(obj, PDict):
             if is_sym(idx):
@@ -2654,10 +2672,13 @@ class Engine(object):
             raise Unsupported('set.%s on a symbolic set' % name)
         if isinstance(recv, PMap):
             if name == 'get' and 1 <= len(args) <= 2 and isinstance(args[0], (str, SStr)):
-                if len(args) == 1 or args[1] is None:
-                    raise Unsupported('dict.get with a None default on a symbolic dict')
                 kt = term_of(args[0])
-                return SInt(z3.If(z3.Select(recv.dom, kt), z3.Select(recv.val, kt), Int.unwrap(args[1])))
+                if len(args) == 1 or args[1] is None:
+                    # None for a missing key: the two cases are two paths
+                    if self.decide(z3.Select(recv.dom, kt)):
+                        return recv.wrap(z3.Select(recv.val, kt))
+                    return None
+                return recv.wrap(z3.If(z3.Select(recv.dom, kt), z3.Select(recv.val, kt), recv.unwrap(args[1])))
             if name == 'items' and not args:
                 return PMapItems(recv)
             if name == 'keys' and not args:
